@@ -819,6 +819,9 @@ def dump_body_all():
             j("PST_MG", &mg, &mut out);
             j("PST_EG", &eg, &mut out);
         }
+        j("PP_MASKS", &crate::engine::eval::verif_access::pawns::dump_masks(), &mut out);
+        j("PP_PST_MG", &crate::engine::eval::verif_access::pawns::dump_pst_mg(), &mut out);
+        j("PP_PST_EG", &crate::engine::eval::verif_access::pawns::dump_pst_eg(), &mut out);
 '''
 
 
@@ -829,7 +832,10 @@ def _arr(vals, fmt="0x{:x}"):
 def dump_rs(data, keys):
     out = ["// generated: constants dumped from the real init() of this tree", "#![allow(dead_code)]"]
     for k in keys:
-        if k == "PST":
+        if k == "PP":
+            if "PP_MASKS" not in data:
+                raise Inconclusive("dump key PP_MASKS not produced by the native dump")
+        elif k == "PST":
             if "PST_MG" not in data:
                 raise Inconclusive("dump key PST_MG not produced by the native dump")
         elif k not in data:
@@ -863,6 +869,13 @@ def dump_rs(data, keys):
                 pl.append("[" + ", ".join(ks) + "]")
             out.append("use crate::engine::eval::PhasedEval as PE;")
             out.append(f"pub const PST: [[[PE; 64]; 6]; 2] = [{', '.join(pl)}];")
+        elif k == "PP":
+            def sgn(x):
+                return x - (1 << 64) if x >= (1 << 63) else x
+            m, mg, eg = data["PP_MASKS"], data["PP_PST_MG"], data["PP_PST_EG"]
+            out.append(f"pub const PP_MASKS: [[u64; 64]; 2] = [{_arr(m[:64])}, {_arr(m[64:])}];")
+            rows = ["[" + ", ".join(f"crate::engine::eval::PhasedEval::new({sgn(mg[c * 64 + s])}, {sgn(eg[c * 64 + s])})" for s in range(64)) + "]" for c in range(2)]
+            out.append(f"pub const PP_PST: [[crate::engine::eval::PhasedEval; 64]; 2] = [{', '.join(rows)}];")
         elif k in ("Z_NO_EP", "Z_SIDE"):
             out.append(f"pub const {k}: u64 = 0x{v[0]:x};")
         else:
